@@ -22,3 +22,20 @@ mod memsec_h {
         kani::cover!(ord == std::cmp::Ordering::Greater && len == 4);
     }
 }
+
+#[cfg(kani)]
+mod c11 {
+    use pallas_crypto::key::ed25519::SecretKeyExtended;
+
+    /// K-complete (loop-free, all 2^512 byte strings): an extended key is accepted from bytes exactly when its clamping bits
+    /// are set as required — the three low bits of byte 0 clear, bit 7 of byte 31 clear, bit 6 of byte 31 set.
+    #[kani::proof]
+    fn c11_extended_from_bytes_accepts_exactly_clamped() {
+        let b: [u8; 64] = kani::any();
+        let expect = b[0] % 8 == 0 && b[31] >= 64 && b[31] < 128;
+        let r = SecretKeyExtended::from_bytes(b);
+        assert!(r.is_ok() == expect, "clamping check disagrees with the required bit pattern");
+        kani::cover!(r.is_ok());
+        kani::cover!(r.is_err());
+    }
+}
